@@ -126,6 +126,12 @@ class RemoteWorker(Worker, metaclass=RemoteWorkerMeta):
             except:
                 pass
 
+        # the backend re-runs the main script under the name '__new_main__' (see _run_backend): results and exceptions whose
+        # classes are defined there come back under that module name, make them loadable on this side as well
+        # (multiprocessing does the same with '__mp_main__')
+        if '__main__' in sys.modules:
+            sys.modules.setdefault('__new_main__', sys.modules['__main__'])
+
         self._startup_sync = threading.Event()
         self._startup_error = None # set by the frontend thread if it fails to set the worker up
         self._remote_side = False # tells us whether the class exists on the remote end
